@@ -1,4 +1,5 @@
 import Drand.Chain.MemStack
+import Drand.Chain.Generic
 import Gen.DKGTable
 import Drand.Driver.Store
 namespace Drand.Driver.ChainD
@@ -63,6 +64,59 @@ def chainStep (cap : Option Nat) (st : AnyStack) (f : List String) : AnyStack ×
        | .map s sd => .map ((raceBeacons s.chained (Stack.last s.base) n).foldl (fun a b => (a.put b).1) s) sd
        | .ring s sd => .ring ((raceBeacons s.chained (MemStack.last s.base) n).foldl (fun a b => (a.put b).1) s) sd, ok)
     | none => (st, "bad-op")
+  | ["get", r] =>
+    match r.toNat? with
+    | some r => (st, match st with
+      | .map s _ => (Bolt.get s.base r).show
+      | .ring s _ => (Mem.get s.base r).show)
+    | none => (st, "bad-op")
+  -- `qput when r sig prev <answer of the implementation>`: the checks of the wrappers run; whether the write below them
+  -- succeeds under the cancelled context is the implementation's answer; ok ⇒ stored, error ⇒ nothing changes
+  | ["qput", _when, r, sg, pv, echo] =>
+    match parseBeacon r sg pv with
+    | some b =>
+      let (st', res) : AnyStack × String := match st with
+        | .map s sd =>
+          let p := s.put b
+          if p.2 == .ok then (if echo == "ok" then (.map p.1 sd, "ok") else (st, "err-write")) else (st, p.2.show)
+        | .ring s sd =>
+          let p := s.put b
+          if p.2 == .ok then (if echo == "ok" then (.ring p.1 sd, "ok") else (st, "err-write")) else (st, p.2.show)
+      (st', res ++ " get=" ++ (match st' with
+        | .map s _ => (Bolt.get s.base b.round).show
+        | .ring s _ => (Mem.get s.base b.round).show))
+    | none => (st, "bad-op")
+  -- `brace k n same|diff win=j1,j2,…`: n times, k writers leave a barrier to Put a beacon of round head+1 (the same one,
+  -- or k different ones). Put is atomic, so each race is some order of the k Puts; which writer came first is the
+  -- implementation's answer (`win`); the model applies that order and counts the answers
+  | ["brace", k, n, mode, wins] =>
+    match k.toNat?, n.toNat? with
+    | some k, some n =>
+      let ws : List Nat := ((wins.drop 4).toString.splitOn ",").map fun w => w.toNat?.getD 0
+      let diff := mode == "diff"
+      let cands (chained : Bool) (last : Beacon) : List Beacon := (List.range k).map fun j =>
+        let r := last.round + 1
+        ⟨r, [UInt8.ofNat (r * 7), UInt8.ofNat r, 0x5b] ++ (if diff then [UInt8.ofNat j] else []), if chained then last.sig else []⟩
+      let order (cs : List Beacon) (w : Nat) : List Beacon :=
+        match cs[w]? with
+        | some b => b :: cs.eraseIdx w
+        | none => cs
+      let count (l : List PutRes) (p : PutRes) : Nat := (l.filter (· == p)).length
+      let step (acc : AnyStack × List (List PutRes)) (i : Nat) : AnyStack × List (List PutRes) :=
+        let w := ws[i]?.getD 0
+        match acc.1 with
+        | .map s sd =>
+          let t := s.putAll (order (cands s.chained (Stack.last s.base)) w)
+          (.map t.1 sd, acc.2 ++ [t.2])
+        | .ring s sd =>
+          let t := (order (cands s.chained (MemStack.last s.base)) w).foldl
+            (fun (a : MemStack × List PutRes) b => let p := a.1.put b; (p.1, a.2 ++ [p.2])) (s, [])
+          (.ring t.1 sd, acc.2 ++ [t.2])
+      let (st', rs) := (List.range n).foldl step (st, [])
+      let col (f : List PutRes → Nat) : String := ",".intercalate (rs.map fun l => toString (f l))
+      let other (l : List PutRes) : Nat := l.length - count l .ok - count l .already - count l .dupDiffSig
+      (st', s!"brace ok={col (count · .ok)} already={col (count · .already)} diffsig={col (count · .dupDiffSig)} other={col other} cb={col (count · .ok)} win={",".intercalate ((List.range n).map fun i => toString (ws[i]?.getD 0))}")
+    | _, _ => (st, "bad-op")
   | ["last"] => (st, match st with
       | .map s _ => (Bolt.last s.base).show
       | .ring s _ => (Mem.last s.base).show)
